@@ -307,3 +307,68 @@ def merge_foralls(ctx, d):
     if merged:
         ctx.probes["model_with_merged_forall_effects"] += 1
     return merged
+
+
+def revise_model(ctx, W, d, t, kinds=("add_effect", "drop_disjunct")):
+    """history 'the model is revised in place' (what a learner does between two uses of its helper objects): one action
+    of the library domain d is edited through the object API and the same edit is made on a copy of the AST.
+      add_effect:    an unconditional add / delete effect is added to an action
+      drop_disjunct: one literal is removed from a nested (or ...) of an action's precondition
+    -> (W2, description) or None when the domain offers no place for the drawn kind."""
+    import copy
+    from pddl_plus_parser.lisp_parsers.parsing_utils import parse_untyped_predicate
+    from pddl_plus_parser.models import Predicate
+    from pddl_plus_parser.models.pddl_precondition import Precondition
+    kind = kinds[t.draw(len(kinds))]
+    names = sorted(W.D["actions"])
+    aname = names[t.draw(len(names))]
+    act = W.D["actions"][aname]
+    lib_act = d.actions[aname]
+    D2 = copy.deepcopy(W.D)
+    if kind == "add_effect":
+        atom = G.gen_atom(t, W.D, act["params"])
+        if atom is None:
+            return None
+        positive = t.draw(2) == 0
+        e = ("add" if positive else "del", atom)
+        if e in act["eff"]:
+            return None
+        lib_act.discrete_effects.add(parse_untyped_predicate([atom[1]] + list(atom[2]), lib_act.signature, d.constants,
+                                                             is_positive=positive))
+        D2["actions"][aname]["eff"] = list(D2["actions"][aname]["eff"]) + [e]
+        what = f"{aname}: effect {G.r_e(e)} added"
+    else:
+        # a nested disjunction with at least two plain literals
+        spots = [(i, x) for i, x in enumerate(act["pre"][1]) if x[0] == "or"
+                 and sum(1 for y in x[1] if y[0] in ("atom", "not")) >= 2]
+        if not spots:
+            return None
+        i, disj = spots[t.draw(len(spots))]
+        lits = [y for y in disj[1] if y[0] in ("atom", "not")]
+        lit = lits[t.draw(len(lits))]
+        import re
+        a = lit if lit[0] == "atom" else lit[1]
+        want_tokens = [a[1]] + list(a[2])
+        target = None
+        for nested in lib_act.preconditions.root.operands:
+            if isinstance(nested, Precondition) and nested.binary_operator == "or":
+                for op in nested.operands:
+                    if isinstance(op, Predicate) and op.is_positive == (lit[0] == "atom") \
+                            and re.findall(r"[^\s()]+", op.untyped_representation)[-len(want_tokens):] == want_tokens \
+                            and (op.is_positive or "not" in op.untyped_representation):
+                        target = op
+        if target is None:
+            return None
+        lib_act.preconditions.remove_condition(target)
+        new_disj = ("or", [y for y in disj[1] if y is not lit])
+        pre = list(D2["actions"][aname]["pre"][1])
+        pre[i] = new_disj
+        D2["actions"][aname]["pre"] = ("and", pre)
+        what = f"{aname}: literal {G.r_f(lit)} removed from {G.r_f(disj)}"
+    W2 = copy.copy(W)
+    W2.D = D2
+    W2.objs = G.all_objects(D2, W.P)
+    raw = G.render_domain(D2, child_first=W.feat.get("child_first_types", False))
+    W2.dom_text = W2.dom_text_plain = raw
+    ctx.probes[f"model_revised_{kind}"] += 1
+    return W2, what
